@@ -12,7 +12,7 @@
 (*                               st = "parse" | "compile"                  *)
 (*       | "render"  n = index of the error, len = length of its rendering *)
 (*       | "finish"                                                        *)
-(*       | "panic" | "render_panic" | "abort" | "timeout"   (no spec action) *)
+(*       | "panic" | "render_panic" | "abort" | "timeout"  (no spec action)*)
 (* Record k is validated independently (Init ranges over all k).  Events   *)
 (* are consumed one per step by the matching SyltPipeline action; ParseOk  *)
 (* is the only unobserved step (the public API returns once).  A record    *)
@@ -21,7 +21,7 @@
 (* the check's verdicts.  All SyltPipeline invariants are evaluated in     *)
 (* every state of every validated trace.                                   *)
 (*                                                                         *)
-(* The universe is decided HERE: for UNIVERSE = tok20.raw|.top|.body or     *)
+(* The universe is decided HERE: for UNIVERSE = tok20.raw|.top|.body or    *)
 (* tok31.raw|.top|.body record k must carry exactly                        *)
 (* TokenTextAt(alphabet, idx, frame), the indices must be                  *)
 (* contiguous and inside 1..NumTokenStrings(alphabet, MAXLEN); TLC prints  *)
